@@ -23,7 +23,7 @@ var c04Cfg = kit.WorldCfg{Stores: []kit.StoreCfg{
 }}
 
 // ids mixing plain ones with ids containing quotes, backslashes, filter keywords, control characters
-var c04IDs = []string{"t1", "t2", "t3", `a"b`, `a\b`, `a\\nb`, `x" or true or ref = "`, "true", "null", "and", "not in", "a b", "[1]", "datetime(", "ünï", "l1\nl2", "tab\tx", "ctl\x01x", `"`, `\`}
+var c04IDs = []string{"t1", "t2", "t3", "t", "t10", "a", "a b c", `a"b`, `a\b`, `a\\nb`, `x" or true or ref = "`, "true", "null", "and", "not in", "a b", "[1]", "datetime(", "ünï", "l1\nl2", "tab\tx", "ctl\x01x", `"`, `\`}
 
 func c04IsHostile(id string) bool {
 	return strings.ContainsAny(id, "\"\\\n\t\x01 [(") || id == "true" || id == "null" || id == "and" || id == "not in" || id == "ünï"
@@ -75,6 +75,49 @@ func genC04(t *rapid.T) kit.History {
 		}
 		return op
 	})
+}
+
+// genC04Full adds, to some histories, a final "cascade burst": one transaction that creates a run of adjacent
+// cascade-wired referrers of one target and then deletes that target.
+func genC04Full(t *rapid.T) kit.History {
+	h := genC04(t)
+	if rapid.IntRange(0, 3).Draw(t, "burst") != 0 {
+		return h
+	}
+	m := replayModel(h)
+	store := []string{"cd", "ec"}[rapid.IntRange(0, 1).Draw(t, "burstStore")]
+	target := ""
+	for _, id := range c04IDs {
+		if _, ok := m.Ents["targets"][id]; ok {
+			restricted := false
+			for s := range m.Referrers("targets", id) {
+				if s == "an" || s == "bn" || s == "cn" {
+					restricted = true
+				}
+			}
+			if !restricted {
+				target = id
+				break
+			}
+		}
+	}
+	tx := kit.TxSpec{}
+	if target == "" {
+		target = "burst-target"
+		tx.Ops = append(tx.Ops, kit.Op{Kind: "create", Store: "targets", ID: target, Spec: &kit.EntSpec{Name: "n"}})
+	}
+	k := rapid.IntRange(2, 6).Draw(t, "burstSize")
+	for i := 0; i < k; i++ {
+		rid := fmt.Sprintf("k%d", i)
+		kind := "create"
+		if _, exists := m.Ents[store][rid]; exists {
+			kind = "update"
+		}
+		tx.Ops = append(tx.Ops, kit.Op{Kind: kind, Store: store, ID: rid, Spec: &kit.EntSpec{Name: "n", Ref: kit.Sp(target)}})
+	}
+	tx.Ops = append(tx.Ops, kit.Op{Kind: "delete", Store: "targets", ID: target})
+	h.Txs = append(h.Txs, tx)
+	return h
 }
 
 func runC04(h kit.History) kit.Result {
@@ -141,7 +184,7 @@ func TestC04(t *testing.T) {
 			"Non-trivial history: a delete of a referenced target (either outcome), a re-parenting update, or a delete involving a hostile id. Distinct by hash of the history JSON.",
 		Assumptions: []string{"expected error classes are checked only through the exported Is* helpers; error texts are never compared",
 			"an entity referencing itself through a cascade wiring and cascade cycles are skipped as unspecified"},
-		Gen: genC04, Run: runC04,
+		Gen: genC04Full, Run: runC04,
 		QuickChecks: 500, ThoroughFactor: 20,
 	})
 }
